@@ -1,0 +1,26 @@
+//go:build verif
+
+// Package verifhook provides scheduling points for the verification harness. With the `verif`
+// build tag Yield calls the scheduler installed by the harness, if any.
+package verifhook
+
+import "sync/atomic"
+
+var sched atomic.Pointer[func(point string)]
+
+// SetScheduler installs (or, with nil, removes) the function called at every Yield.
+func SetScheduler(f func(point string)) {
+	if f == nil {
+		sched.Store(nil)
+		return
+	}
+	sched.Store(&f)
+}
+
+// Yield marks a point between two critical sections at which a controlled scheduler may switch to
+// another goroutine.
+func Yield(point string) {
+	if f := sched.Load(); f != nil {
+		(*f)(point)
+	}
+}
